@@ -94,6 +94,21 @@ def gen_state(rng, which):
     return rng.choice(["XX", "running", "R+", "CANCELLED+", "??", "0"])
 
 
+ODD_SEP = ["\x0b", "\x0c", "\x1c", "\x1d", "\x1e", "\x85", "\u2028", "\u2029", "\u00a0", "\u3000"]
+
+
+def job_name(rng, jid, ids):
+    """the free-text column.  Maestro names its own jobs after the step (no blanks); the jobs of other
+    people's tools, which the same query lists, may be called anything - including text with the rarer
+    line and word separators followed by something that looks like a row of its own"""
+    if jid in ids or rng.random() < 0.75:
+        return "name"
+    other = rng.choice(ids) if ids else "77"
+    return rng.choice(["my job", "a%s%s z" % (rng.choice(ODD_SEP), other),
+                       "n%s%s x u %s" % (rng.choice(ODD_SEP), other, rng.choice(["CD", "F", "R"])),
+                       "%s%s" % (rng.choice(ODD_SEP), other), "t\r%s" % other])
+
+
 def gen_squeue(rng, ids, pool, malformed):
     rows = ["             JOBID     NAME     USER ST"]
     n = rng.randint(0, 7)
@@ -118,7 +133,7 @@ def gen_squeue(rng, ids, pool, malformed):
             continue
         lead = rng.choice(["", " ", "  ", "\t"]) if rng.random() < 0.3 else ""
         trail = rng.choice(["", " ", "   "])
-        rows.append(lead + "%s %s %s %s" % (pad(rng, jid, 18), pad(rng, "name", 8),
+        rows.append(lead + "%s %s %s %s" % (pad(rng, jid, 18), pad(rng, job_name(rng, jid, ids), 8),
                                            pad(rng, "user", 8), pad(rng, st, 2)) + trail)
         listed.append((jid, st))
     return "\n".join(rows) + rng.choice(["", "\n"]), listed
@@ -149,7 +164,7 @@ def gen_sacct(rng, ids, pool, malformed):
             listed.append((jid, None))
             continue
         lead = " " if rng.random() < 0.1 else ""
-        rows.append(lead + "%s %s %s %s " % (jid.ljust(12), "name".rjust(10),
+        rows.append(lead + "%s %s %s %s " % (jid.ljust(12), job_name(rng, jid.split(".")[0], ids).rjust(10),
                                             st_txt.rjust(10), "0:0".rjust(8)))
         listed.append((None if lead else jid, st))
     return "\n".join(rows) + rng.choice(["", "\n"]), listed
